@@ -13,7 +13,9 @@ accepts every step of every history of every layout — `C08_statement`.  It is 
 of the code for layouts outside H1 ∧ H2 (known findings D6, D7: `C08_counterexample_D6`,
 `C08_counterexample_D7`, kernel-checked).
 
-  H1: in every mapping all output keys before the last are modifiers;
+  H1: a mapping that is not key-producing (its output is empty or ends in a modifier) outputs modifiers
+      only — implied by "all output keys before the last are modifiers" (`H1_of_canonical`), and exactly the
+      negation of what finding D7 needs;
   H2: every mapping with a non-empty absorbing list is key-producing (its last output key is a
       non-modifier).
 All built-in layouts, README examples and unit-test layouts satisfy H1 ∧ H2.
@@ -34,12 +36,38 @@ import TmVerif.Proofs.Inert
 
 namespace TmVerif
 
-def H1 (L : Layout) : Prop := ∀ m, m ∈ L → ∀ y, y ∈ m.to.dropLast → isActionKey y = false
+def H1 (L : Layout) : Prop := ∀ m, m ∈ L → isActionMapping m = false → ∀ y, y ∈ m.to → isActionKey y = false
 def H2 (L : Layout) : Prop := ∀ m, m ∈ L → m.absorbing ≠ [] → isActionMapping m = true
 
 /-- the Bool forms the monitor uses to decide whether a layout is inside the theorem's scope -/
 theorem H1_iff (L : Layout) : H1 L ↔ layoutH1 L = true := by
-  simp [H1, layoutH1]
+  simp only [H1, layoutH1, List.all_eq_true, Bool.or_eq_true, Bool.not_eq_eq_eq_not, Bool.not_true]
+  constructor
+  · intro h m hm
+    cases ha : isActionMapping m with
+    | true => exact Or.inl rfl
+    | false => exact Or.inr (fun y hy => h m hm ha y hy)
+  · intro h m hm ha y hy
+    rcases h m hm with h' | h'
+    · rw [ha] at h'; exact absurd h' (by simp)
+    · exact h' y hy
+
+/-- the hypothesis as first stated (all output keys before the last are modifiers) implies H1 -/
+theorem H1_of_canonical (L : Layout) (h : ∀ m, m ∈ L → ∀ y, y ∈ m.to.dropLast → isActionKey y = false) : H1 L := by
+  intro m hm ha y hy
+  cases hl : m.to.getLast? with
+  | none => have : m.to = [] := List.getLast?_eq_none_iff.mp hl; rw [this] at hy; simp at hy
+  | some kl =>
+    have hne : m.to ≠ [] := by intro e; simp [e] at hl
+    have hkl : isActionKey kl = false := by simpa [isActionMapping, hl] using ha
+    have hsplit := List.dropLast_concat_getLast hne
+    have hlast : m.to.getLast hne = kl := by
+      have := List.getLast?_eq_some_getLast hne; rw [hl] at this; exact (Option.some.inj this).symm
+    rw [← hsplit, hlast] at hy
+    simp only [List.mem_append, List.mem_singleton] at hy
+    rcases hy with h' | h'
+    · exact h m hm y h'
+    · rw [h']; exact hkl
 
 theorem H2_iff (L : Layout) : H2 L ↔ layoutH2 L = true := by
   simp only [H2, layoutH2, List.all_eq_true, Bool.or_eq_true, List.isEmpty_iff]
@@ -520,23 +548,11 @@ theorem C08_partial_ii (L : Layout) (h1 : H1 L) (h2 : H2 L) (y : Sys8) (hy : Rea
         z ∈ held (addPhase2 (afterConsume (pressPrep y.x.s k) fm) k fm).1 := em2.2
     cases hact : isActionMapping fm with
     | false =>
-      -- under H1 a mapping whose output ends in a modifier (or is empty) has only modifiers
+      -- H1: a mapping that is not key-producing (its output is empty or ends in a modifier) outputs modifiers only
       apply noMAtPresses_modifiers
       intro x hx
       have hxto : x ∈ fm.to := (pressAll_spec _ fm.to d1 (fun _ h => h)).2.2.2.2.2.1 x hx
-      cases hl : fm.to.getLast? with
-      | none => have : fm.to = [] := List.getLast?_eq_none_iff.mp hl; rw [this] at hxto; simp at hxto
-      | some kl =>
-        have hne : fm.to ≠ [] := by intro e; simp [e] at hl
-        have hkl : isActionKey kl = false := by simpa [isActionMapping, hl] using hact
-        have hsplit := List.dropLast_concat_getLast hne
-        have hlast : fm.to.getLast hne = kl := by
-          have := List.getLast?_eq_some_getLast hne; rw [hl] at this; exact (Option.some.inj this).symm
-        rw [← hsplit, hlast] at hxto
-        simp only [List.mem_append, List.mem_singleton] at hxto
-        rcases hxto with h | h
-        · exact h1 fm hfmL x h
-        · rw [h]; exact hkl
+      exact h1 fm hfmL hact x hxto
     | true =>
       -- key-producing: if M was absorbed, release_absorbed_keys has removed it as input
       have hMinp : ob.M ∉ (addPhase2 (afterConsume (pressPrep y.x.s k) fm) k fm).1.inp := by
